@@ -36,6 +36,7 @@ type Config struct {
 	SparseIDs      bool
 	ExtremeIDs     bool // 0, 32767, -32768
 	StructMapKeys  bool // map<Struct, …>
+	BinaryMapKeys  bool // map<binary, …> (Go key type string); fastgo's FastRead does not compile for it
 	StructLiterals bool // struct-typed defaults / constants
 	ContainerConst bool // list/set/map literals
 	ConstIdents    bool // defaults referring to constants by (qualified) identifier
@@ -79,7 +80,7 @@ func DefaultConfig() Config {
 		Enums: true, Typedefs: true, Unions: true, Exceptions: true, Services: true, Consts: true,
 		Defaults: true, TypedefChains: true, CrossFile: true, Recursive: true,
 		NegativeIDs: true, ImplicitIDs: true, SparseIDs: true, ExtremeIDs: true,
-		StructMapKeys: true, StructLiterals: true, ContainerConst: true, ConstIdents: true,
+		StructMapKeys: true, BinaryMapKeys: true, StructLiterals: true, ContainerConst: true, ConstIdents: true,
 		EnumByNumber: true, IntForDouble: true, BoolAsInt: true, Annotations: true,
 		EqualBaseNames: true, SharedGoNS: true, NoGoNS: true, ForwardRefs: true, Namespaces: true,
 		BinaryDefaults: true, KeywordNames: true,
@@ -553,6 +554,9 @@ func (g *gen) namedType(ctx typeCtx, want string) *Type {
 }
 
 func (g *gen) keyOK(t *Type) bool {
+	if !g.cfg.BinaryMapKeys && g.p.deref(t).Kind == Binary {
+		return false
+	}
 	switch g.p.catOf(t) {
 	case 'c':
 		return g.cfg.ContainerMapKeys
